@@ -172,6 +172,10 @@ inductive Kind where
   | whereInt (r : RouteId)
   | setName (r : RouteId)
   | urlFor (r : RouteId)
+  /-- `route.WhereRegex("zz", pattern)` with a pattern `regexp.Compile` rejects: the typed constraint is stored,
+      `ParamConstraint.ToRegexConstraint` returns nil for it, so every (re-)registration writes the entry the
+      route had before — no effect on routing; panics when frozen like every `Where*` -/
+  | whereBad (r : RouteId)
   deriving DecidableEq, Repr
 
 inductive Status where
@@ -278,6 +282,7 @@ def stepActor (kinds : List Kind) (s : St) (i : Nat) (k : Kind) (st : Status) : 
   | .start, .setName r =>
     (setStatus { s with core := s.core.step (.setName r) } i .finished, .mut (mutateRes s.core r))
   | .start, .urlFor r => (setStatus s i .finished, .url (urlFor s.core r))
+  | .start, .whereBad r => (setStatus s i .finished, .mut (mutateRes s.core r))
   | .inFreeze, _ =>
     (match s.core.fpc with
      | .flags =>
